@@ -56,7 +56,7 @@ static void do_line(char *work, const char *orig) {
 	char *w[80]; int n = split_words(work, w, 80);
 	(void)orig;
 	if (n >= 5 && !strcmp(w[0], "pf")) {
-		KSI_CTX *ctx = NULL; KSI_PKITruststore *pki = NULL; KSI_PublicationsFile *pf = NULL;
+		KSI_CTX *ctx = NULL, *ctxA = NULL; KSI_PKITruststore *pki = NULL, *pkiA = NULL; KSI_PublicationsFile *pf = NULL;
 		size_t len; unsigned char *raw0 = unhex(w[1], &len), *raw = malloc(len ? len : 1); int r, fnull, cnull;
 		KSI_CertConstraint *fc, *cc; char path[512];
 		memcpy(raw, raw0, len);
@@ -68,7 +68,15 @@ static void do_line(char *work, const char *orig) {
 		}
 		KSI_CTX_setPKITruststore(ctx, pki);
 		fc = parse_cons(w[3], &fnull); cc = parse_cons(w[4], &cnull);
-		r = KSI_PublicationsFile_parse(ctx, raw, len, &pf);
+		/* the file is parsed under another context, whose trust store holds the opposite anchors: the verdict is that of the
+		 * context the caller verifies against */
+		KSI_CTX_new(&ctxA);
+		KSI_PKITruststore_new(ctxA, 0, &pkiA);
+		snprintf(path, sizeof(path), "%s/%s.pem", pkidir, !strcmp(w[2], "ca") ? "other" : "ca");
+		KSI_PKITruststore_addLookupFile(pkiA, path);
+		KSI_CTX_setPKITruststore(ctxA, pkiA);
+		if (!cnull) KSI_CTX_setDefaultPubFileCertConstraints(ctxA, cc);
+		r = KSI_PublicationsFile_parse(ctxA, raw, len, &pf);
 		if (r != KSI_OK) printf("P%d", r);
 		else {
 			size_t sl = 0; int v, v2;
@@ -83,7 +91,7 @@ static void do_line(char *work, const char *orig) {
 		}
 		KSI_PublicationsFile_free(pf);
 		free_cons(fc); free_cons(cc);
-		KSI_CTX_free(ctx);
+		KSI_CTX_free(ctx); KSI_CTX_free(ctxA);
 		free(raw0); free(raw);
 	} else if (n >= 2 && !strcmp(w[0], "pq")) {
 		KSI_CTX *ctx = NULL; KSI_PublicationsFile *pf = NULL; int i, r;
